@@ -168,12 +168,8 @@ func (e *SpecEnv) goType(ex ast.Expr) types.Type {
 		return types.NewInterfaceType(nil, nil)
 	case *ast.SelectorExpr:
 		if id, ok := t.X.(*ast.Ident); ok {
-			if p := e.x.L.findPkgByName(e.pkg, id.Name); p != nil {
-				if o := p.Scope().Lookup(t.Sel.Name); o != nil {
-					if tn, ok := o.(*types.TypeName); ok {
-						return tn.Type()
-					}
-				}
+			if ty := e.x.L.findTypeQualified(e.pkg, id.Name, t.Sel.Name); ty != nil {
+				return ty
 			}
 			e.fail("unknown type %s.%s", id.Name, t.Sel.Name)
 		}
@@ -316,6 +312,9 @@ func (e *SpecEnv) ident(name string) Val {
 			switch ob := o.(type) {
 			case *types.Var:
 				hn := "GV$" + e.pkg.Path() + "." + name
+				if _, ok := e.x.heapElem[hn]; !ok {
+					e.x.heapElem[hn] = ob.Type()
+				}
 				return e.x.load(e.st, &Loc{Kind: LGlobal, Global: hn, Elem: ob.Type()})
 			case *types.Const:
 				return e.constVal(ob)
@@ -732,6 +731,9 @@ func refTerm(v Val) string {
 	if v.Ty != nil {
 		if _, ok := v.Ty.Underlying().(*types.Slice); ok {
 			return "(s_arr " + v.T + ")"
+		}
+		if _, ok := v.Ty.Underlying().(*types.Interface); ok {
+			return "(i_val " + v.T + ")"
 		}
 	}
 	return v.T
